@@ -146,6 +146,23 @@ def run_case(ctx, mon, cfg_id, terms, prods, inputs_spec=None, rng=None):
             if snt is not None:
                 text, expected = cfg.render(rng, snt, dense=rng.random() < 0.2)
                 inputs_spec.append((snt, text, expected, False, nt))
+    if rng is not None and cfg.name == "letters+synonyms":
+        # a part of a sentence is hidden in an end-of-line comment, behind a character that some
+        # line-splitting functions (not '\n'.split) treat as a line break: the comment must still
+        # hide it. Only used when the text is a sentence with AND without the hidden part.
+        for _ in range(3):
+            snt = gram.gen_sentence(prods, rng, start)
+            if not snt or len(snt) < 2:
+                continue
+            i = rng.randrange(0, len(snt))
+            j = rng.randrange(i + 1, len(snt) + 1)
+            shown = snt[:i] + snt[j:]
+            if not gram.earley(prods, start, shown):
+                continue
+            sep = rng.choice(["\x0c", "\x0b", "\x1c", "\u2028", "\x85", "\r"])
+            text = " ".join(snt[:i]) + " //x" + sep + " ".join(snt[i:j]) + "\n" + " ".join(snt[j:])
+            inputs_spec.append((shown, text, [(t, t) for t in shown], False))
+            ctx.count("sentences_with_a_part_hidden_in_a_comment")
     for spec_item in inputs_spec:
         toks, text, expected, as_lines = spec_item[:4]
         explicit = spec_item[4] if len(spec_item) > 4 else None
